@@ -755,15 +755,17 @@ Definition row_entry (members : list mrow) (mv dv : bytes -> pval) (r : trow) : 
 
 Definition axes_clip : list string := ["" ; "x"; "y"; "xy"; "z"; "xz"; "yz"; "xyz"]%string.
 
+Definition axis_lg (o : axis) : bool := negb (Z.land (ax_format o) LG =? 0).
 Definition axis_entry (o : axis) (pos : nat) (r : trow) : pent :=
-  if (pos =? 5)%nat && negb (Z.land (ax_format o) LG =? 0)
-  then mkpent (tr_name r) TStr (PStr (Some (bs "log"))) 1
-  else row_entry axis_members (axis_member o) (axis_member def_axis) r.
+  let lg := (pos =? 5)%nat && axis_lg o in
+  let e := row_entry axis_members (axis_member o) (axis_member def_axis) r in
+  mkpent (tr_name r) (if lg then TStr else pe_type e) (if lg then PStr (Some (bs "log")) else pe_val e) (if lg then 1 else pe_ret e).
 Definition graph_entry (o : graph) (r : trow) : pent :=
-  if eqs (tr_name r) "clip" && (gr_clip o <? 8)
-  then mkpent (tr_name r) TStr (PStr (Some (bs (nth (Z.to_nat (gr_clip o)) axes_clip ""%string))))
-              (if gr_clip o =? gr_clip def_graph then 0 else 1)
-  else row_entry graph_members (graph_member o) (graph_member def_graph) r.
+  let txt := eqs (tr_name r) "clip" && (gr_clip o <? 8) in
+  let e := row_entry graph_members (graph_member o) (graph_member def_graph) r in
+  mkpent (tr_name r) (if txt then TStr else pe_type e)
+         (if txt then PStr (Some (bs (nth (Z.to_nat (gr_clip o)) axes_clip ""%string))) else pe_val e)
+         (if txt then (if gr_clip o =? gr_clip def_graph then 0 else 1) else pe_ret e).
 
 Fixpoint mapi {A B : Type} (f : nat -> A -> B) (i : nat) (l : list A) : list B :=
   match l with [] => [] | x :: r => f i x :: mapi f (S i) r end.
